@@ -13,7 +13,8 @@ Lemma defaults_valid_vars :
 Proof. vm_compute. reflexivity. Qed.
 
 Theorem defaults_valid : forall sv, In sv vars -> checkable sv = true -> ~ In (v_name sv) default_known_bad ->
-  exists d, convert (v_type sv) (v_default sv) = Ok d /\ gval_same_value d (v_default sv) = true.
+  exists d, convert (v_type sv) (v_default sv) = Ok d /\
+            gval_same_value (shown_t (v_type sv) d) (v_default sv) = true.
 Proof.
   intros sv Hin Hc Hn. pose proof (proj1 (forallb_forall _ _) defaults_valid_vars sv Hin) as H.
   cbv beta in H. rewrite Hc in H. simpl negb in H. rewrite orb_false_l in H.
@@ -47,6 +48,24 @@ Definition enum_names_fixed (sv : sysvar) : bool :=
   | TEnum vals => forallb (fun s => match convert (TEnum vals) (GS s) with Ok (GS s') => String.eqb s s' | _ => false end) vals
   | _ => true
   end.
+
+(* every member name of a SET-typed variable converts to one bit that is shown back as that name; all members together
+   are shown as the full list *)
+Definition set_names_fixed (sv : sysvar) : bool :=
+  match v_type sv with
+  | TSet c vals =>
+      forallb (fun s => match convert (TSet c vals) (GS s) with
+                        | Ok d => gval_eqb (shown_t (TSet c vals) d) (GS s)
+                        | _ => false end) vals
+      && gval_eqb (shown_t (TSet c vals) (GI KUint64 (set_all vals))) (GS (String.concat "," vals))
+  | _ => true
+  end.
+
+Lemma set_names_fixed_vars : forallb set_names_fixed vars = true.
+Proof. vm_compute. reflexivity. Qed.
+
+Theorem set_names_fixed_all : forall sv, In sv vars -> set_names_fixed sv = true.
+Proof. intros sv Hin. exact (proj1 (forallb_forall _ _) set_names_fixed_vars sv Hin). Qed.
 
 Lemma registry_wellformed_vars :
   keys_unique vars = true /\ forallb name_ok vars = true /\ forallb (fun sv => bounds_ok (v_type sv)) vars = true /\
